@@ -444,6 +444,10 @@ var msgFrames []*msgRec
 // two, insertion order or its reverse, chosen anew at each range statement); natively Go randomises the order itself.
 func NondetMapOrder() {}
 
+// LongRun tells the engine that this harness executes concrete code of large, known cost (the ANTLR recogniser) and
+// raises the per-path instruction budget twelvefold; natively a no-op.
+func LongRun() {}
+
 // ProtectGlobals marks every package-level variable of the repository (and what it reaches) read-only (engine only;
 // natively the harness protects the specific tables it can name with Protect).
 func ProtectGlobals() {}
